@@ -104,6 +104,9 @@ def evaluate(asm, lines, idx=0):
     for compress in (False, True):
         res = progs.assemble_chunks(asm, src, compress)
         out['status'][compress] = res.status + ('' if res.status == 'ok' else ':' + str(res.exc))
+        out.setdefault('size', {})[compress] = len(res.bytes) if res.bytes is not None else None
+        out.setdefault('labels', {})[compress] = dict(res.labels)
+        out.setdefault('err_line', {})[compress] = res.err_line
         if res.status != 'ok':
             continue
         lay = oracle.Layout(lines, res)
